@@ -503,6 +503,8 @@ def run_check(pid, tier, base_seed, runs=None, workers=None, wall_cap=None):
             lines.append('HARNESS-ERROR nondeterministic property=%s signature=%s replay=%s'
                          % (pid, sig, path))
             lines.append(outp[-1500:])
+    if len(reported) > max_report and status == EXIT_OK:
+        status = EXIT_VIOLATION         # unlisted violations exist even if none was minimised
     if len(reported) > max_report:
         lines.append('  (%d further distinct violation signatures not minimised: %s)'
                      % (len(reported) - max_report, reported[max_report:max_report + 10]))
